@@ -18,7 +18,7 @@ use ckb_freezer::Freezer;
 use ckb_merkle_mountain_range::{Error as MMRError, MMRStore, Result as MMRResult};
 use ckb_types::{
     core::{
-        BlockExt, BlockView, EpochExt, HeaderView, TransactionView,
+        BlockExt, BlockNumber, BlockView, EpochExt, HeaderView, TransactionView,
         cell::{CellChecker, CellProvider, CellStatus},
     },
     packed::{self, Byte32, OutPoint},
@@ -276,7 +276,24 @@ impl StoreTransaction {
                 Into::<packed::HeaderView>::into(uncle.header()).as_slice(),
             )?;
         }
+        // The epoch-number index names the epochs of the main chain: it is written when the
+        // first block of an epoch is attached (and removed when that block is detached).
+        if let Some((epoch_index, epoch)) = self.first_block_epoch(&block_hash, block.number()) {
+            let epoch_number: packed::Uint64 = epoch.number().into();
+            self.insert_raw(COLUMN_EPOCH, epoch_number.as_slice(), epoch_index.as_slice())?;
+        }
         self.insert_raw(COLUMN_INDEX, block_hash.as_slice(), block_number.as_slice())
+    }
+
+    /// Returns the epoch (index and data) opened by this block, if it is the first block of its epoch.
+    fn first_block_epoch(
+        &self,
+        block_hash: &packed::Byte32,
+        block_number: BlockNumber,
+    ) -> Option<(packed::Byte32, EpochExt)> {
+        let epoch_index = self.get_block_epoch_index(block_hash)?;
+        let epoch = self.get_epoch_ext(&epoch_index)?;
+        (epoch.start_number() == block_number).then_some((epoch_index, epoch))
     }
 
     /// Detaches a block from the main chain, removing its transaction and uncle indices.
@@ -286,6 +303,10 @@ impl StoreTransaction {
         }
         for uncle in block.uncles().into_iter() {
             self.delete(COLUMN_UNCLES, uncle.hash().as_slice())?;
+        }
+        if let Some((_, epoch)) = self.first_block_epoch(&block.hash(), block.number()) {
+            let epoch_number: packed::Uint64 = epoch.number().into();
+            self.delete(COLUMN_EPOCH, epoch_number.as_slice())?;
         }
         let block_number = block.data().header().raw().number();
         self.delete(COLUMN_INDEX, block_number.as_slice())?;
@@ -305,13 +326,25 @@ impl StoreTransaction {
         )
     }
 
-    /// Inserts epoch extension data.
-    pub fn insert_epoch_ext(&self, hash: &packed::Byte32, epoch: &EpochExt) -> Result<(), Error> {
+    /// Inserts epoch extension data under its epoch index only.
+    ///
+    /// The epoch-number index is left alone: a block that is processed is not necessarily on the
+    /// main chain; `attach_block` points the epoch number at this epoch once its first block is attached.
+    pub fn insert_epoch_ext_record(
+        &self,
+        hash: &packed::Byte32,
+        epoch: &EpochExt,
+    ) -> Result<(), Error> {
         self.insert_raw(
             COLUMN_EPOCH,
             hash.as_slice(),
             Into::<packed::EpochExt>::into(epoch).as_slice(),
-        )?;
+        )
+    }
+
+    /// Inserts epoch extension data.
+    pub fn insert_epoch_ext(&self, hash: &packed::Byte32, epoch: &EpochExt) -> Result<(), Error> {
+        self.insert_epoch_ext_record(hash, epoch)?;
         let epoch_number: packed::Uint64 = epoch.number().into();
         self.insert_raw(COLUMN_EPOCH, epoch_number.as_slice(), hash.as_slice())
     }
